@@ -76,6 +76,32 @@ func runC15(c *core.Ctx) {
 	c.Doc("C15.events", "added/removed emitted exactly once per transition, with the entry's id and name, nowhere else", 6)
 
 	ruleRegistryCopies(c, "C15.transitions", dirSt, staging, services, handwritten)
+	// a transition that was made is reported as made: once the ready table has been changed
+	// no failure is returned (the caller would undo its side — unroute the service — while
+	// lookup and list keep showing it, and a retry would answer "not found")
+	for _, fn := range handwritten {
+		ups, dels := mapWrites(fn, services)
+		var muts []ssa.Instruction
+		for _, u := range ups {
+			muts = append(muts, u)
+		}
+		for _, d := range dels {
+			muts = append(muts, d)
+		}
+		if len(muts) == 0 || hasErrorResult(fn.Signature) < 0 {
+			continue
+		}
+		bad := ""
+		for _, m := range muts {
+			r := core.ReachFrom(core.After(m), nil, nil)
+			for _, ret := range core.Returns(fn) {
+				if r.Has(ret) && !successReturn(ret) {
+					bad = "a failure is returned (at " + c.Pos(ret.Pos()) + ") after the table of ready services was changed (at " + c.Pos(m.Pos()) + "): the caller sees an error for a transition that took effect — it undoes its own side while lookup and list keep showing the service, and a retry fails differently"
+				}
+			}
+		}
+		c.Check(bad == "", "C15.transitions", "committed-means-success@"+core.FuncKey(fn), fn.Pos(), "no failure is returned once the ready table was changed", bad)
+	}
 
 	// ---- id
 	var registrars []*ssa.Function
